@@ -161,7 +161,11 @@ impl CountersReader {
         Self {
             metadata_buffer,
             values_buffer,
-            max_counter_id: (values_buffer.capacity() / COUNTER_LENGTH),
+            // number of counter slots both buffers can hold; valid ids are 0..max_counter_id (exclusive)
+            max_counter_id: std::cmp::min(
+                values_buffer.capacity() / COUNTER_LENGTH,
+                metadata_buffer.capacity() / METADATA_LENGTH,
+            ),
         }
     }
 
@@ -236,7 +240,7 @@ impl CountersReader {
     }
 
     fn validate_counter_id(&self, counter_id: i32) -> Result<(), AeronError> {
-        if counter_id < 0 || counter_id > self.max_counter_id {
+        if counter_id < 0 || counter_id >= self.max_counter_id {
             Err(IllegalArgumentError::CounterIdOutOfRange {
                 filename: file!().to_string(),
                 line: line!(),
